@@ -1027,7 +1027,7 @@ package rib
 //@ loop 1 invariant forall k: uint64 :: old(retried)[k] ==> retried[k]
 //@ ensures[retried-monotone] forall k: uint64 :: old(retried)[k] ==> retried[k]
 //@ assigns ribState, *oks, *fails, contents(installStack), spawned, hookCount
-//@ props C01 C02 C06 C12:safety C12:ensures#fatal-unknown-ni C12:ensures#answered-or-held
+//@ props C01 C02 C06 C07:pre:rib.RIB.addEntryInternal C07:at:ack-installed C12:safety C12:ensures#fatal-unknown-ni C12:ensures#answered-or-held
 
 // ---- construction and hooks (C16) ----
 // hookInv: every network instance notifies through the hook last given to SetPostChangeHook,
